@@ -1,4 +1,78 @@
-import Cpl.Model.Evolve2D
+import Cpl.Spec.Torus
+import Cpl.Lemmas.Evolve2D
+import Cpl.Lemmas.Memo2D
+
+/-!
+# C04 — 2D memoization is transparent (True and 'recursive' equal False)
+
+`PureVal2 rule f`: the rule's result depends only on the neighbourhood it is handed (for von Neumann
+that is the unmasked part: masked cells are `none`). Every grid shape (square or not, no power-of-two
+assumption), every radius `0 ≤ r ≤ min(R, C)`, both neighbourhood types.
+-/
+
 namespace Cpl.C04
-theorem placeholder : True := trivial
+open Cpl Cpl.Spec
+
+variable {σ α : Type}
+
+/-- **All three modes compute the same grids**: the given history followed by the pure torus updates. -/
+theorem evolve2dFixed_grids_pure [DecidableEq α] [Inhabited α] (rule : Rule2 σ α) (f : Nbhd2 α → α)
+    (hp : PureVal2 rule f) (mode : Mode) (hm : mode ≠ .bad) (hist : List (Grid α)) (init : Grid α)
+    (hlast : hist.getLast? = some init) (T : Nat) (hT : 1 ≤ T) (R C r : Nat) (nb : NbType)
+    (hnb : nb ≠ .unknown) (hg : Rect init R C) (hR1 : 1 ≤ R) (hC1 : 1 ≤ C) (hR : r ≤ R) (hC : r ≤ C) (s : σ) :
+    (evolve2dFixed hist T rule r nb mode s).map Prod.fst
+      = .ok (hist ++ pureRun2 f R C r (decide (nb = .vonNeumann)) (T - 1) init) := by
+  sorry
+
+/-- **memoize=True is transparent.** -/
+theorem evolve2d_memo_eq_plain [DecidableEq α] [Inhabited α] (rule : Rule2 σ α) (f : Nbhd2 α → α)
+    (hp : PureVal2 rule f) (hist : List (Grid α)) (init : Grid α) (hlast : hist.getLast? = some init)
+    (T : Nat) (hT : 1 ≤ T) (R C r : Nat) (nb : NbType) (hnb : nb ≠ .unknown) (hg : Rect init R C)
+    (hR1 : 1 ≤ R) (hC1 : 1 ≤ C) (hR : r ≤ R) (hC : r ≤ C) (s : σ) :
+    (evolve2dFixed hist T rule r nb .memo s).map Prod.fst
+      = (evolve2dFixed hist T rule r nb .plain s).map Prod.fst := by
+  sorry
+
+/-- **memoize='recursive' is transparent** for every grid shape and every radius. -/
+theorem evolve2d_rec_eq_plain [DecidableEq α] [Inhabited α] (rule : Rule2 σ α) (f : Nbhd2 α → α)
+    (hp : PureVal2 rule f) (hist : List (Grid α)) (init : Grid α) (hlast : hist.getLast? = some init)
+    (T : Nat) (hT : 1 ≤ T) (R C r : Nat) (nb : NbType) (hnb : nb ≠ .unknown) (hg : Rect init R C)
+    (hR1 : 1 ≤ R) (hC1 : 1 ≤ C) (hR : r ≤ R) (hC : r ≤ C) (s : σ) :
+    (evolve2dFixed hist T rule r nb .recursive s).map Prod.fst
+      = (evolve2dFixed hist T rule r nb .plain s).map Prod.fst := by
+  sorry
+
+/-- **Callable timesteps**: memoized dynamic evolutions return the grids of the unmemoized one. -/
+theorem evolve2dDynamic_grids_mode_indep [DecidableEq α] [Inhabited α] (rule : Rule2 σ α) (f : Nbhd2 α → α)
+    (hp : PureVal2 rule f) (mode : Mode) (hm : mode ≠ .bad) (fuel : Nat) (hist : List (Grid α))
+    (init : Grid α) (hlast : hist.getLast? = some init) (pred : List (Grid α) → Nat → Bool) (R C r : Nat)
+    (nb : NbType) (hnb : nb ≠ .unknown) (hg : Rect init R C) (hR1 : 1 ≤ R) (hC1 : 1 ≤ C) (hR : r ≤ R)
+    (hC : r ≤ C) (s : σ) :
+    (evolve2dDynamic fuel hist pred rule r nb mode s).map (·.map Prod.fst)
+      = (evolve2dDynamic fuel hist pred rule r nb .plain s).map (·.map Prod.fst) := by
+  sorry
+
+/-- An unsupported option is rejected as soon as a step would be taken (and only then). -/
+theorem bad_mode_rejected [DecidableEq α] [Inhabited α] (rule : Rule2 σ α) (hist : List (Grid α))
+    (init : Grid α) (hlast : hist.getLast? = some init) (T : Nat) (r : Nat) (nb : NbType)
+    (hnb : nb ≠ .unknown) (s : σ) :
+    (2 ≤ T → evolve2dFixed hist T rule r nb .bad s = .error .Exception) ∧
+    evolve2dFixed hist 1 rule r nb .bad s = .ok (hist, s) := by
+  sorry
+
+/-- **Quadtree sanity**: the four quadrants of a block partition its cells (empty quadrants allowed),
+    each non-empty quadrant of a block with more than one cell is strictly smaller. -/
+theorem quadrants_partition (b : Blk) (i j : Nat) :
+    (b.r0 ≤ i ∧ i < b.r0 + b.h ∧ b.c0 ≤ j ∧ j < b.c0 + b.w) ↔
+      ∃ q ∈ quadrants b, q.r0 ≤ i ∧ i < q.r0 + q.h ∧ q.c0 ≤ j ∧ j < q.c0 + q.w := by
+  sorry
+
+theorem quadrants_smaller (b : Blk) (hb : b.h > 1 ∨ b.w > 1) :
+    ∀ q ∈ quadrants b, q.h + q.w < b.h + b.w := by
+  sorry
+
+/-! ## Non-vacuity: a 3×4 and a 4×3 block of equal bytes are different keys (nested lists carry the shape) -/
+example : blockKey [[0,0,0,0],[0,0,0,0],[0,0,0,0],[0,0,0,0]] 1 ⟨0, 1, 0, 2⟩
+    ≠ blockKey [[0,0,0,0],[0,0,0,0],[0,0,0,0],[0,0,0,0]] 1 ⟨0, 2, 0, 1⟩ := by decide
+
 end Cpl.C04
